@@ -138,7 +138,7 @@ package statf
 //
 //@ func (*StatMicMsgBody).ResetDefault
 //@   requires st != nil
-//@   modifies *st
+//@   pure
 //@   safety [C05]
 //
 //@ func (*StatMicMsgBody).ReadFrom
@@ -149,6 +149,26 @@ package statf
 //@   allocates
 //@   ensures [C05] readBuf.buf.i >= p0
 //@   ensures [C05] validR(readBuf)
+//@   let src = readBuf.buf.src
+//@   let d0 = readBuf.depth
+//@   let q0 = readBuf.buf.i
+//@   let k1 = decIntK(src, q0, 0, true, 4, d0)
+//@   let q1 = (k1 == 0 ? decIntP(src, q0, 0, d0) : seekP(src, q0, 0, d0))
+//@   let ok1 = (k1 == 0 || (k1 == 1 && (seekK(src, q0, 0, d0) == 2 || (seekK(src, q0, 0, d0) == 1 && seekCanon(src, q0, 0, d0)))))
+//@   let k2 = decIntK(src, q1, 1, true, 4, d0)
+//@   let q2 = (k2 == 0 ? decIntP(src, q1, 1, d0) : seekP(src, q1, 1, d0))
+//@   let ok2 = ok1 && (k2 == 0 || (k2 == 1 && (seekK(src, q1, 1, d0) == 2 || (seekK(src, q1, 1, d0) == 1 && seekCanon(src, q1, 1, d0)))))
+//@   let k3 = decIntK(src, q2, 2, true, 4, d0)
+//@   let q3 = (k3 == 0 ? decIntP(src, q2, 2, d0) : seekP(src, q2, 2, d0))
+//@   let ok3 = ok2 && (k3 == 0 || (k3 == 1 && (seekK(src, q2, 2, d0) == 2 || (seekK(src, q2, 2, d0) == 1 && seekCanon(src, q2, 2, d0)))))
+//@   opaque [C04,C06] *
+//@   perreturn
+//@   ensures [C04] (ok1 && err == nil) ==> st.Count == (k1 == 0 ? decIntV(src, q0, 0, d0) : old(st.Count))
+//@   ensures [C06] (k1 == 2) ==> err != nil
+//@   ensures [C04] (ok2 && err == nil) ==> st.TimeoutCount == (k2 == 0 ? decIntV(src, q1, 1, d0) : old(st.TimeoutCount))
+//@   ensures [C06] (ok1 && k2 == 2) ==> err != nil
+//@   ensures [C04] (ok3 && err == nil) ==> st.ExecCount == (k3 == 0 ? decIntV(src, q2, 2, d0) : old(st.ExecCount))
+//@   ensures [C06] (ok2 && k3 == 2) ==> err != nil
 //@   loop 0 invariant [C05] validR(readBuf) && readBuf.buf.i >= p0 && st != nil && st.IntervalCount != nil
 //@   safety [C05]
 //
